@@ -16,15 +16,31 @@ def main():
         if hasattr(mod, 'impl_setup'):
             mod.impl_setup()
     signal.signal(signal.SIGALRM, _alarm)
+    repeat = getattr(mod, 'REPEAT_CALLS', True) and os.environ.get('VERIF_REPEAT', '1') == '1'
     out = []
     for case in req['cases']:
         signal.setitimer(signal.ITIMER_REAL, req.get('timeout', 5))
+        frozen = json.dumps(case)
         try:
             with contextlib.redirect_stdout(io.StringIO()), contextlib.redirect_stderr(io.StringIO()):
                 r = mod.impl(case)
             signal.setitimer(signal.ITIMER_REAL, 0)
             if not isinstance(r, dict):
                 r = {'status': 'ok', 'obs': r, 'viol': None}
+            # state a call leaves behind (memo tables, operands or results edited in place, registries) must not change what the
+            # same calls return later in the same process: every case is evaluated a second time and must be observed identically
+            if repeat and not r.get('viol') and r.get('status') != 'Timeout':
+                signal.setitimer(signal.ITIMER_REAL, req.get('timeout', 5))
+                with contextlib.redirect_stdout(io.StringIO()), contextlib.redirect_stderr(io.StringIO()):
+                    r2 = mod.impl(json.loads(frozen))
+                signal.setitimer(signal.ITIMER_REAL, 0)
+                if not isinstance(r2, dict):
+                    r2 = {'status': 'ok', 'obs': r2, 'viol': None}
+                if r2.get('viol'):
+                    r = dict(r2, viol='evaluated a second time in the same process: ' + str(r2['viol']))
+                elif json.dumps(r2.get('obs'), sort_keys=True, default=str) != json.dumps(r.get('obs'), sort_keys=True, default=str):
+                    r['viol'] = 'the same calls evaluated a second time in the same process were observed differently: first %s, then %s' % (
+                        json.dumps(r.get('obs'), default=str)[:300], json.dumps(r2.get('obs'), default=str)[:300])
         except CaseTimeout:
             r = {'status': 'Timeout', 'obs': ['ERR', 'Timeout'], 'viol': 'call did not return within %ss' % req.get('timeout', 5)}
         except Exception as e:
